@@ -501,6 +501,9 @@ type MergePerformers struct {
 	signal chan struct{}
 	once   sync.Once
 
+	// mu guards closed and items: Close is called from the goroutine started by
+	// MmsTables.Listen while the merging goroutine pops and pushes items
+	mu    sync.Mutex
 	items []*mergePerformer
 	ur    *UnorderedReader
 
@@ -551,6 +554,8 @@ func (c *MergePerformers) Pop() interface{} {
 func (c *MergePerformers) Close() {
 	c.once.Do(func() {
 		close(c.signal)
+		c.mu.Lock()
+		defer c.mu.Unlock()
 		c.closed = true
 		for _, item := range c.items {
 			item.Close()
@@ -567,7 +572,28 @@ func (c *MergePerformers) Release() {
 }
 
 func (c *MergePerformers) Closed() bool {
+	c.mu.Lock()
+	defer c.mu.Unlock()
 	return c.closed
+}
+
+func (c *MergePerformers) init() {
+	c.mu.Lock()
+	defer c.mu.Unlock()
+	heap.Init(c)
+}
+
+func (c *MergePerformers) pop() (*mergePerformer, bool) {
+	c.mu.Lock()
+	defer c.mu.Unlock()
+	item, ok := heap.Pop(c).(*mergePerformer)
+	return item, ok
+}
+
+func (c *MergePerformers) push(item *mergePerformer) {
+	c.mu.Lock()
+	defer c.mu.Unlock()
+	heap.Push(c, item)
 }
 
 func (c *MergePerformers) Next() error {
@@ -578,13 +604,13 @@ func (c *MergePerformers) Next() error {
 			break
 		}
 
-		item, ok := heap.Pop(c).(*mergePerformer)
+		item, ok := c.pop()
 		if !ok {
 			continue
 		}
 
 		if sid > 0 && item.sid != sid {
-			heap.Push(c, item)
+			c.push(item)
 			break
 		}
 
@@ -614,7 +640,7 @@ func (c *MergePerformers) Next() error {
 
 		if itr.NextChunkMeta() {
 			item.sid = itr.sid
-			heap.Push(c, item)
+			c.push(item)
 			continue
 		}
 
